@@ -3,6 +3,7 @@
    private model copy, seed, mode number, which settings the amplitude / wave-vector arrays were
    derived under, position in the RNG stream.  Values are abstract identifiers.  Core Lean only. -/
 import GSV.Proto
+import GSV.Gen.Summator
 open Lean GSV GSV.Proto
 namespace GSV.Model.Gen
 
@@ -101,6 +102,36 @@ def run (s : State) : List Op → State × List (Option Out)
     let (s'', os) := run s' ops
     (s'', o :: os)
 
+/-! ### the numerical glue of the generators (`__call__`, `reset_seed`, `sample_sphere`) -/
+section glue
+open GSV.Transc
+variable {α : Type} [Arith α] [Transc α] [DecidableLT α] [DecidableLE α]
+
+/-- `RandMeth.__call__` without nugget: `sqrt(var / N) · summate(k, z1, z2, pos)` at point `i` -/
+def randmethField (var : α) (cov : Nat → Nat → α) (z1 z2 : Nat → α) (pos : Nat → Nat → α) (dim N X i : Nat) : α :=
+  sqrt (var / ((N : Nat) : α)) * Summator.summate (id : Sched) cov dim N z1 N z2 N pos dim X i
+
+/-- `Fourier.reset_seed`: `spectrum_factor_j = sqrt(S(|k_j|) · Π Δk)` -/
+def spectrumFactor (S : Nat → α) (dk : Nat → α) (dim : Nat) (j : Nat) : α :=
+  sqrt (S j * forRange 1 dim (dk 0) fun d acc => acc * dk d)
+
+/-- `Fourier.__call__` without nugget -/
+def fourierField (sf : Nat → α) (modes : Nat → Nat → α) (z1 z2 : Nat → α) (pos : Nat → Nat → α) (dim N X i : Nat) : α :=
+  Summator.summate_fourier (id : Sched) sf N modes dim N z1 N z2 N pos dim X i
+
+/-- `get_nugget`: `sqrt(nugget) · ε` for `nugget > 0`, else 0 -/
+def nuggetTerm (nugget eps : α) : α := if nugget > ((0:Nat):α) then sqrt nugget * eps else ((0:Nat):α)
+
+/-- `RNG.sample_sphere` for dim 1, 2, 3 from its raw variates:
+    dim 1: the sign `s`; dim 2: `(cos a, sin a)`; dim 3: `(√(1−z²) cos a, √(1−z²) sin a, z)` -/
+def sampleSphere (dim : Nat) (s a z : α) (d : Nat) : α :=
+  if dim = 1 then s
+  else if dim = 2 then (if d = 0 then cos a else sin a)
+  else (if d = 0 then sqrt (((1:Nat):α) - npow z 2) * cos a
+        else if d = 1 then sqrt (((1:Nat):α) - npow z 2) * sin a else z)
+
+end glue
+
 /-! ### driver -/
 
 def optNat (j : Json) (k : String) : Option Nat :=
@@ -156,6 +187,25 @@ def ops (op : String) (j : Json) : Option (Except String Json) :=
         | none => pure ()
         s := s'
       return Json.arr out)
+  | "gen_randmeth" => some (do
+      let dim ← getNat j "dim"; let n ← getNat j "N"; let x ← getNat j "X"
+      let cov ← getFloats j "cov"; let z1 ← getFloats j "z1"; let z2 ← getFloats j "z2"; let pos ← getFloats j "pos"
+      let var ← getFloat j "var"
+      let f := fun i => randmethField var (ofList2 cov n) (ofList z1) (ofList z2) (ofList2 pos x) dim n x i
+      return fl (tab f x))
+  | "gen_fourier" => some (do
+      let dim ← getNat j "dim"; let n ← getNat j "N"; let x ← getNat j "X"
+      let sp ← getFloats j "S"; let dk ← getFloats j "dk"
+      let modes ← getFloats j "modes"; let z1 ← getFloats j "z1"; let z2 ← getFloats j "z2"; let pos ← getFloats j "pos"
+      let sf := fun jj => spectrumFactor (ofList sp) (ofList dk) dim jj
+      let sfa := (Array.range n).map sf
+      let f := fun i => fourierField (ofList sfa) (ofList2 modes n) (ofList z1) (ofList z2) (ofList2 pos x) dim n x i
+      return Json.arr #[fl (tab sf n), fl (tab f x)])
+  | "gen_sphere" => some (do
+      let dim ← getNat j "dim"
+      let s ← getFloats j "s"; let a ← getFloats j "a"; let z ← getFloats j "z"
+      let out := (List.range dim).map fun d => (List.range s.size).map fun i => sampleSphere dim s[i]! a[i]! z[i]! d
+      return fl2 out)
   | _ => none
 
 end GSV.Model.Gen
